@@ -2,6 +2,9 @@ use noodles_bgzf as bgzf;
 use noodles_csi::binning_index::index::reference_sequence::bin::Chunk;
 use tokio::io::{self, AsyncRead, AsyncReadExt};
 
+// The count comes from the input: use it as a capacity hint only up to this bound.
+const MAX_PREALLOCATED_LEN: usize = 1 << 16;
+
 pub(super) async fn read_chunks<R>(reader: &mut R) -> io::Result<Vec<Chunk>>
 where
     R: AsyncRead + Unpin,
@@ -10,7 +13,7 @@ where
         usize::try_from(n).map_err(|e| io::Error::new(io::ErrorKind::InvalidData, e))
     })?;
 
-    let mut chunks = Vec::with_capacity(n_chunk);
+    let mut chunks = Vec::with_capacity(n_chunk.min(MAX_PREALLOCATED_LEN));
 
     for _ in 0..n_chunk {
         let chunk = read_chunk(reader).await?;
